@@ -81,9 +81,8 @@ func (s *Session) store() {
 		key:   s.info.ClientID,
 		value: str,
 	}
-	go func() {
-		s.storeCh <- ss
-	}()
+	// callers hold the session lock: handing the write over here keeps the issue order
+	s.storeCh <- ss
 }
 
 func (s *Session) encode() (string, error) {
